@@ -27,7 +27,6 @@ __all__ = ["ArrayMap", "PerCPUArrayMap"]
 from collections.abc import Sequence
 from itertools import chain
 from mmap import mmap
-from os import cpu_count
 from struct import pack, pack_into, unpack_from
 
 from .bpf import MapFlags, MapType, create_map, lookup_elem, update_elem
@@ -170,6 +169,12 @@ class ArrayMap(Map):
         ebpf.owners.add(self.base_register)
 
 
+def possible_cpus():
+    """the number of CPUs the kernel keeps per-CPU values for"""
+    with open("/sys/devices/system/cpu/possible") as fin:
+        return int(fin.read().replace(",", "-").split("-")[-1]) + 1
+
+
 class PerCPUReader:
     def __init__(self, map, fd):
         self.map = map
@@ -217,7 +222,8 @@ class PerCPUArrayMap(ArrayMap):
         return PerCPUVarDesc(self, fmt)
 
     def create_map(self, ebpf, fd):
-        self.cpu_no = cpu_count()
+        # the kernel copies a value for every possible CPU, online or not
+        self.cpu_no = possible_cpus()
         if fd is None:
             fd = create_map(MapType.PERCPU_ARRAY, 4, self.size, 1)
         setattr(ebpf, self.name, PerCPUReader(self, fd))
